@@ -427,7 +427,7 @@ pub fn term_case(dir: &std::path::PathBuf, c: &TermCase, verbose: bool) -> Optio
     use crate::fixture::Torrent;
     use crate::world::{peer_cfg, Ev, World, WorldCfg};
     let t = Torrent::new("t", 16384, &[("f", 16389)], true);
-    let cfg = WorldCfg { torrent: t.clone(), have: vec![], peers: vec![peer_cfg(0, c.outgoing)], gated: false };
+    let cfg = WorldCfg { torrent: t.clone(), have: vec![], peers: vec![peer_cfg(0, c.outgoing)], gated: false, stale: vec![] };
     let mut w = World::new(&cfg, dir);
     let id = w.peers[0].cfg.id;
     let alpha = alphabet();
